@@ -119,7 +119,7 @@ Inductive action :=
 | ASendIdOk (c : nat) | ASendIdFail (c : nat)
 | ABegin (c : nat)                 (* beginNegotiation: the first critical section of the Listen callback *)
 | AEnd (c : nat)                   (* endNegotiation: the callback returns *)
-| ARecvIdOk (c : nat) | ARecvIdFail (c : nat) | ACheckPeer (c : nat) (valid : bool)
+| ARecvIdOk (c : nat) | ARecvIdFail (c : nat) | ARecvIdTimeout (c : nat) | ACheckPeer (c : nat) (valid : bool)
 | ARegister (c : nat) | ALaunch (c : nat)
 (* handleConn of connection c *)
 | AHRecvMsg (c m : nat) | AHRecvErr (c : nat) | AHTimeout (c : nat) | AHCheck (c : nat)
@@ -370,7 +370,16 @@ Definition step (fx : fixes) (s : state) (a : action) : option state :=
                   end
       | None => None
       end
-  | ARecvIdFail c =>                      (* EOF, garbage, wrong type or read timeout: the callback closes c *)
+  | ARecvIdFail c =>                      (* the read fails because this end or the peer's end is closed *)
+      match nth_error (conns s) c with
+      | Some k => match setup k with
+                  | IRecvId => if lopen k && popen k then None       (* blocked in receiveServerIdentity *)
+                               else Some (set_conns s (upd (conns s) c (set_setup (close_conn k) SetupErr)))
+                  | _ => None
+                  end
+      | None => None
+      end
+  | ARecvIdTimeout c =>                   (* environment: garbage, a wrong type, or the read time-out (TCP only) *)
       match nth_error (conns s) c with
       | Some k => match setup k with
                   | IRecvId => Some (set_conns s (upd (conns s) c (set_setup (close_conn k) SetupErr)))
